@@ -299,13 +299,29 @@ func runC05(w *W) {
 		model := cloneVal(val)
 		c.marshalAndCheck(tree, model, raw, !opts.StoreChildrenById && !opts.StoreChildrenByHash, "unedited")
 
+		// a fork of the tree is a tree of its own: edits of either must not show in the other
+		var fork *generic.PathNode
+		var forkModel *TVal
+		if t.Chance(1, 4, "tree.fork") {
+			w.NextOp("PathNode.Fork")
+			f := tree.Fork()
+			fork, forkModel = &f, cloneVal(model)
+			w.Count("tree_forks")
+		}
 		// lookups + edits on the root container
 		nedit := t.Intn(6, "nedits")
 		for e := 0; e < nedit; e++ {
-			c.editRoot(tree, model, vg)
+			if fork != nil && t.Chance(1, 3, "edit.onfork") {
+				c.editRoot(fork, forkModel, vg)
+			} else {
+				c.editRoot(tree, model, vg)
+			}
 		}
 		if nedit > 0 {
 			c.marshalAndCheck(tree, model, nil, false, "edited")
+		}
+		if fork != nil {
+			c.marshalAndCheck(fork, forkModel, nil, false, "fork")
 		}
 		if !bytes.Equal(in.B, raw) {
 			w.Failf("input-modified", c.facts, "Load/Marshal/edits modified the loaded buffer")
